@@ -150,7 +150,9 @@ class TableRow(Mapping[str, object]):
     def step(self) -> None:
         """Step the forloop forward."""
         self._index += 1
-        if self._col == self.ncols:
+        # With `cols: 0` there are no row breaks, so don't mistake the initial
+        # column number (0) for the last column of a row.
+        if self.ncols > 0 and self._col == self.ncols:
             self._col = 1
             self._row += 1
         else:
